@@ -1,11 +1,14 @@
 (* C32 - JSON documents round-trip through JSONB.  Property theorems only (proofs in Proof/Jsonb*.v).
    Models: Model/Jsonb.v (records/jsonb.rs builder + view, owned_value.rs lookups; entry-word accessors
    and constants regenerated in Gen/JsonbBits.v).
-   `fits j`: numbers are 64-bit patterns, strings/keys are UTF-8, strings and keys below the root are
-   shorter than 2^16 bytes, a root string shorter than 2^28, the encoding at most 2^24 bytes. *)
+   `typed j`: what the Rust types guarantee (numbers are 64-bit patterns, strings/keys are UTF-8).
+   `fits j`: typed, strings and keys below the root shorter than 2^16 bytes, a root string shorter than
+   2^28, and (unless the document is a single string) an encoding of at most 2^24 bytes.
+   `try_build` (JsonbBuilder::try_build, what the SQL conversion path stores since 00ee7a4) succeeds
+   exactly on these; `encode_value` is the raw `build` / to_jsonb_bytes, which does not check. *)
 From Coq Require Import ZArith List Bool.
 From TV Require Import Lib.MachInt Gen.JsonbBits Model.Jsonb Model.JsonText Model.JsonGrammar
-  Proof.Jsonb Proof.JsonbTop Proof.JsonbPath Proof.JsonText Proof.JsonEndToEnd.
+  Proof.Jsonb Proof.JsonbTop Proof.JsonbPath Proof.JsonbTryBuild Proof.JsonText Proof.JsonEndToEnd.
 Import ListNotations.
 Open Scope Z_scope.
 
@@ -73,47 +76,77 @@ Theorem jsonb_path_complete :
   ov_get_path (root_of j) (k :: ks) = Ok (Some (ov_of e)).
 Proof. exact path_complete_l. Qed.
 
-(* the 2^16 limit of `fits` is necessary: the code stores `len as u16` (recorded finding F-C32-1) *)
-Theorem jsonb_roundtrip_long_string_refuted :
-  exists j, wf_json false j = false /\ blen (encode_value j) <= 2 ^ 24 /\
-            tree_of_view (S (depth j)) (encode_value j) = Ok (JArr [JStr []]) /\ canon j <> JArr [JStr []].
-Proof. exact long_string_refuted_l. Qed.
+(* ---- the checked entry point: refusal instead of corruption, for EVERY document *)
+Theorem jsonb_try_build_roundtrip :
+  forall j b, typed j = true -> try_build j = Ok b -> tree_of_view (S (depth j)) b = Ok (canon j).
+Proof. exact try_build_roundtrip_l. Qed.
 
+Theorem jsonb_try_build_accepts :
+  forall j, fits j = true -> try_build j = Ok (encode_value j).
+Proof. exact try_build_fits_l. Qed.
+
+Theorem jsonb_try_build_refuses :
+  forall j, typed j = true -> fits j = false -> try_build j = Err.
+Proof. exact try_build_refuses_l. Qed.
+
+(* documented limit of the RAW API (`build` / to_jsonb_bytes, unchanged): beyond `fits` it still
+   truncates -- a 65536-byte string below the root is stored with `len as u16`; try_build refuses it.
+   (Was finding F-C32-1 while the SQL path used `build`; fixed in 00ee7a4.) *)
+Theorem jsonb_raw_build_truncates_beyond_fits :
+  exists j, typed j = true /\ fits j = false /\ blen (encode_value j) <= 2 ^ 24 /\
+            tree_of_view (S (depth j)) (encode_value j) = Ok (JArr [JStr []]) /\ canon j <> JArr [JStr []] /\
+            try_build j = Err.
+Proof. exact raw_build_long_string_l. Qed.
 
 (* ---- text side (Model/JsonText.v = parsing/json.rs; Model/JsonGrammar.v = the JSON grammar as a data type:
    `render d` ranges over every spelling of a document -- whitespace, escapes, hex case, number text --,
    `erase d` is the value it denotes, `num_of` is str::parse::<f64>, any function) *)
 
-(* parse_json returns the denoted value for every document that does not escape a character as a
-   surrogate pair, and `consumed` stops before trailing whitespace only *)
+(* parse_json returns the denoted value for every document (surrogate-pair escapes included since
+   456f370), and `consumed` stops before trailing whitespace only.  Not in the grammar, hence not
+   covered: an escape \uD800..\uDFFF that is not half of a pair (it denotes no Unicode string; the
+   parser rejects it, see c32_text_witness) *)
 Theorem json_text_parse :
-  forall (num_of : list Z -> res Z) d, dj_ok num_of false d = true ->
+  forall (num_of : list Z -> res Z) d, dj_ok num_of d = true ->
   parse_json num_of (render d) = Ok (erase d, blen (render d) - blen (trail d)) /\ all_ws (trail d) = true.
 Proof. exact parse_json_ok_l. Qed.
 
 (* text -> parse_json -> to_jsonb_bytes -> JsonbView read-back: an equal JSON value *)
 Theorem json_text_jsonb_roundtrip :
-  forall (num_of : list Z -> res Z) d, dj_ok num_of false d = true -> fits (erase d) = true ->
+  forall (num_of : list Z -> res Z) d, dj_ok num_of d = true -> fits (erase d) = true ->
   exists v n, parse_json num_of (render d) = Ok (v, n) /\
               tree_of_view (S (depth v)) (encode_value v) = Ok (canon (erase d)) /\
               jequiv (erase d) (canon (erase d)).
 Proof. exact text_jsonb_roundtrip_l. Qed.
 
-(* the exclusion is necessary: "\ud83d\ude00" is JSON for U+1F600 and parse_json rejects it (recorded finding F-C32-2) *)
-Theorem json_text_surrogate_pair_refuted :
-  forall (num_of : list Z -> res Z),
-  exists d, dj_ok num_of true d = true /\ erase d = JStr [240; 159; 152; 128] /\ parse_json num_of (render d) = Err.
-Proof. exact parse_json_pair_refuted_l. Qed.
+(* text -> parse_json -> try_build (SQL path): either refused or stored so that it reads back equal *)
+Theorem json_text_try_build_roundtrip :
+  forall (num_of : list Z -> res Z) d, dj_ok num_of d = true -> typed (erase d) = true ->
+  exists v n, parse_json num_of (render d) = Ok (v, n) /\ v = erase d /\
+              (try_build v = Err \/
+               exists b, try_build v = Ok b /\ tree_of_view (S (depth v)) b = Ok (canon v) /\ jequiv v (canon v)).
+Proof. exact text_try_build_roundtrip_l. Qed.
 
 (* non-vacuity on the text side: {"a" : [1e2, "\u00e9\n", true ] } with an oracle that knows 1e2 *)
 Example c32_text_witness :
   let num_of := fun t => if zlist_eqb t [49; 101; 50] then Ok 4636737291354636288 else Err in
   let d := DWs [32] (DObj [] [([], [CRaw 97], [32], DWs [32] (DArr [] [DNum [49; 101; 50] 4636737291354636288;
              DWs [32] (DStr [CU 48 48 101 57; CEsc 110]) []; DWs [] (DBool true) [32]]) [32])]) [10] in
-  dj_ok num_of false d = true /\
+  dj_ok num_of d = true /\
   render d = [32; 123; 34; 97; 34; 32; 58; 32; 91; 49; 101; 50; 44; 32; 34; 92; 117; 48; 48; 101; 57; 92; 110; 34; 44; 116; 114; 117; 101; 32; 93; 32; 125; 10] /\
   parse_json num_of (render d) = Ok (JObj [([97], JArr [JNum 4636737291354636288; JStr [195; 169; 10]; JBool true])], 33).
 Proof. vm_compute. repeat split; reflexivity. Qed.
+
+(* an escaped surrogate pair is the one character it stands for; unpaired surrogate escapes are rejected *)
+Example c32_pair_witness :
+  forall (num_of : list Z -> res Z),
+  let d := DStr [CPair 100 56 51 100 100 101 48 48] in
+  dj_ok num_of d = true /\ render d = [34; 92; 117; 100; 56; 51; 100; 92; 117; 100; 101; 48; 48; 34] /\
+  parse_json num_of (render d) = Ok (JStr [240; 159; 152; 128], 14) /\
+  parse_json num_of [34; 92; 117; 100; 56; 48; 48; 34] = Err /\
+  parse_json num_of [34; 92; 117; 100; 56; 48; 48; 92; 117; 48; 48; 52; 49; 34] = Err /\
+  parse_json num_of [34; 92; 117; 100; 99; 48; 48; 34] = Err.
+Proof. exact parse_json_pair_l. Qed.
 
 (* non-vacuity: a nested document with unsorted and repeated keys fits, and the lookups do what is claimed *)
 Example c32_witness :
@@ -156,22 +189,32 @@ Check jsonb_path_stepwise : forall j k ks, fits j = true ->
   (r1 = Ok None \/ (exists o, r1 = Ok (Some o)) \/ (r1 = Err /\ forall kvs, j <> JObj kvs)).
 Check jsonb_path_complete : forall j k ks e, fits j = true -> nodup_keys j -> tree_path j (k :: ks) e ->
   ov_get_path (root_of j) (k :: ks) = Ok (Some (ov_of e)).
-Check jsonb_roundtrip_long_string_refuted :
-  exists j, wf_json false j = false /\ blen (encode_value j) <= 2 ^ 24 /\
-            tree_of_view (S (depth j)) (encode_value j) = Ok (JArr [JStr []]) /\ canon j <> JArr [JStr []].
 
-Check json_text_parse : forall (num_of : list Z -> res Z) d, dj_ok num_of false d = true ->
+Check jsonb_try_build_roundtrip : forall j b, typed j = true -> try_build j = Ok b -> tree_of_view (S (depth j)) b = Ok (canon j).
+Check jsonb_try_build_accepts : forall j, fits j = true -> try_build j = Ok (encode_value j).
+Check jsonb_try_build_refuses : forall j, typed j = true -> fits j = false -> try_build j = Err.
+Check jsonb_raw_build_truncates_beyond_fits :
+  exists j, typed j = true /\ fits j = false /\ blen (encode_value j) <= 2 ^ 24 /\
+            tree_of_view (S (depth j)) (encode_value j) = Ok (JArr [JStr []]) /\ canon j <> JArr [JStr []] /\
+            try_build j = Err.
+Check json_text_parse : forall (num_of : list Z -> res Z) d, dj_ok num_of d = true ->
   parse_json num_of (render d) = Ok (erase d, blen (render d) - blen (trail d)) /\ all_ws (trail d) = true.
-Check json_text_jsonb_roundtrip : forall (num_of : list Z -> res Z) d, dj_ok num_of false d = true -> fits (erase d) = true ->
+Check json_text_jsonb_roundtrip : forall (num_of : list Z -> res Z) d, dj_ok num_of d = true -> fits (erase d) = true ->
   exists v n, parse_json num_of (render d) = Ok (v, n) /\
               tree_of_view (S (depth v)) (encode_value v) = Ok (canon (erase d)) /\
               jequiv (erase d) (canon (erase d)).
-Check json_text_surrogate_pair_refuted : forall (num_of : list Z -> res Z),
-  exists d, dj_ok num_of true d = true /\ erase d = JStr [240; 159; 152; 128] /\ parse_json num_of (render d) = Err.
+Check json_text_try_build_roundtrip : forall (num_of : list Z -> res Z) d, dj_ok num_of d = true -> typed (erase d) = true ->
+  exists v n, parse_json num_of (render d) = Ok (v, n) /\ v = erase d /\
+              (try_build v = Err \/
+               exists b, try_build v = Ok b /\ tree_of_view (S (depth v)) b = Ok (canon v) /\ jequiv v (canon v)).
 
 Print Assumptions json_text_parse.
 Print Assumptions json_text_jsonb_roundtrip.
-Print Assumptions json_text_surrogate_pair_refuted.
+Print Assumptions json_text_try_build_roundtrip.
+Print Assumptions jsonb_try_build_roundtrip.
+Print Assumptions jsonb_try_build_accepts.
+Print Assumptions jsonb_try_build_refuses.
+Print Assumptions jsonb_raw_build_truncates_beyond_fits.
 Print Assumptions jsonb_roundtrip.
 Print Assumptions jsonb_roundtrip_fuel.
 Print Assumptions jsonb_canon_equal.
@@ -182,4 +225,3 @@ Print Assumptions jsonb_get_key_nodup.
 Print Assumptions jsonb_array_get.
 Print Assumptions jsonb_path_stepwise.
 Print Assumptions jsonb_path_complete.
-Print Assumptions jsonb_roundtrip_long_string_refuted.
